@@ -98,6 +98,11 @@ class Contract:
         """{ExcName: condition}: ExcName may be raised only when condition holds (one direction)."""
         return {}
 
+    def ghost_symbolic(self, eng, st):
+        """Ghost (logical) variables this contract is verified for, for *arbitrary* values (callers fix them,
+        e.g. a loop invariant's pending set).  Default: none."""
+        return {}
+
     def focus(self, clause):
         """Optional assumption slicing ('keep each query small'): the set of clause names (of this contract's
         preconditions, of callee postconditions and of lemmas) that the proof of `clause` may use; None = all.
@@ -266,6 +271,7 @@ class Contract:
         st.facts = list(eng.schema.axioms) + list(self.axioms(eng))
         eng.cur_facts = st.facts
         eng.fun_memo = {}
+        eng.ghost = self.ghost_symbolic(eng, st)
         names, vararg, kwonly = fi.params()
         a = Args()
         specs = dict(self.params or {})
@@ -635,11 +641,13 @@ class LoopSpec:
     carried: {local name: kind-spec} for locals that live across iterations.
     lemmas(L) -> [formula]: hint lemmas; each is itself proved as an obligation before it is assumed."""
 
-    def __init__(self, inv, modifies=(), carried=None, lemmas=None):
+    def __init__(self, inv, modifies=(), carried=None, lemmas=None, ghost=None, focus=None):
         self.inv = inv
         self.modifies = modifies
         self.carried = carried or {}
         self.lemmas = lemmas
+        self.focus = focus          # focus(clause) -> names usable in the proof of that invariant clause (slicing)
+        self.ghost = ghost          # ghost(L: LoopCtx) -> dict of ghost variables in force during an iteration
 
     def _havoc(self, eng, st):
         for key in self.modifies:
@@ -654,13 +662,28 @@ class LoopSpec:
                            name, SV(new.k, new.t, cls=new.cls, x=new.x, wb=st2.env[name].wb)))
             st.env[name] = v
 
+    def _with_ghost(self, eng, L, fn):
+        saved = getattr(eng, "ghost", {})
+        if self.ghost is not None:
+            eng.ghost = dict(saved, **self.ghost(L))
+        try:
+            return fn()
+        finally:
+            eng.ghost = saved
+
     def _assert_inv(self, eng, st, L, label):
-        for name, f in self.inv(L).items():
-            st.oblige("loop%s.%s" % (label, name), f)
+        for name, f in self._with_ghost(eng, L, lambda: self.inv(L)).items():
+            names = self.focus(name) if self.focus else None
+            if names is None:
+                st.oblige("loop%s.%s" % (label, name), f)
+            else:
+                names = set(names)
+                st.obls.append(Obligation("loop%s.%s" % (label, name),
+                                          st.sliced_assumptions(lambda t: t.rsplit(".", 1)[-1] in names), f))
 
     def _assume_inv(self, eng, st, L):
-        for name, f in self.inv(L).items():
-            st.define(f)
+        for name, f in self._with_ghost(eng, L, lambda: self.inv(L)).items():
+            st.define(f, tag="loopinv." + name)
 
     def run(self, eng, node, it, st, ordinal):
         import z3 as _z3
@@ -728,9 +751,17 @@ class LoopSpec:
         s = st.fork()
         x = fresh("x", Val)
         s.assume(_z3.And(_z3.Select(elems, x), _z3.Not(_z3.Select(seen, x))))
-        self._assume_inv(eng, s, LoopCtx(eng, s, cL, seen=seen, elems=elems))
+        Lbody = LoopCtx(eng, s, cL, seen=seen, elems=elems)
+        self._assume_inv(eng, s, Lbody)
         eng.assign(node.target, elem(x), s)
-        for (s2, ctrl) in eng.exec_stmts(node.body, s):
+        saved_ghost = getattr(eng, "ghost", {})
+        if self.ghost is not None:
+            eng.ghost = dict(saved_ghost, **self.ghost(Lbody))
+        try:
+            body_outs = eng.exec_stmts(node.body, s)
+        finally:
+            eng.ghost = saved_ghost
+        for (s2, ctrl) in body_outs:
             if ctrl is not None and ctrl[0] == "raise":
                 outs.append((s2, ctrl))
                 continue
